@@ -4,7 +4,7 @@ import json, os, shutil, glob
 V = os.path.dirname(os.path.dirname(os.path.abspath(__file__)))
 M = json.load(open(os.path.join(V, "seeded", "MATRIX.json")))
 n = 0
-for d in sorted(glob.glob(os.path.join(V, "seeded", "candidates", "C*-*")) + glob.glob(os.path.join(V, "seeded", "candidates", "R2-*"))):
+for d in sorted(glob.glob(os.path.join(V, "seeded", "candidates", "C*-*")) + glob.glob(os.path.join(V, "seeded", "candidates", "R2-*")) + glob.glob(os.path.join(V, "seeded", "candidates", "R3-*"))):
     cid = os.path.basename(d)
     conf = os.path.join(d, "confirm.json")
     if not os.path.exists(conf):
